@@ -185,6 +185,9 @@ static std::string err_json(const char *phase, const std::exception &e) {
 using SeedMap = std::map<std::string, std::vector<std::optional<Value>>>;
 
 // wire + finish + executor builder (observer attached by caller)
+// raw recorded buffers of the last run that recorded (key -> a COPY of the buffer Value as it sat in the graph's global state)
+static std::map<std::string, Value> g_raw_buffers;
+
 static void prepare(Prepared &p, const JV &prog_json, const SeedMap *seeds = nullptr) {
     p.prog = std::make_shared<Program>();
     p.prog->root = prog_json;
@@ -217,6 +220,11 @@ static void prepare(Prepared &p, const JV &prog_json, const SeedMap *seeds = nul
         }
     }
     if (seeds != nullptr) for (auto &kv : *seeds) testing::set_replay_deltas(gb->global_state(), kv.first, kv.second);
+    // hand the earlier run's buffer over as a whole-Value copy (builder.global_state().set(key, Value{old_state.get(key)}))
+    if (auto *rs = pj.get("raw_seed")) for (auto &kv : rs->o) {
+        auto it = g_raw_buffers.find(kv.second.as_str());
+        if (it != g_raw_buffers.end()) gb->global_state().set(kv.first, Value{it->second.view()});
+    }
     p.eb.emplace();
     p.eb->graph_builder(std::move(*gb));
     p.eb->mode(realtime ? GraphExecutorMode::RealTime : GraphExecutorMode::Simulation);
@@ -252,7 +260,11 @@ static void collect_after_run(Prepared &p, GraphExecutorValue &ex, RunCtx &ctx, 
             recorded += ":";
             try {
                 auto deltas = testing::get_recorded_deltas(ex.view().graph().global_state(), k.as_str());
-                if (capture != nullptr) (*capture)[k.as_str()] = deltas;
+                if (capture != nullptr) {
+                    (*capture)[k.as_str()] = deltas;
+                    const ValueView raw = ex.view().graph().global_state().get(k.as_str());
+                    if (raw.valid()) g_raw_buffers.insert_or_assign(k.as_str(), Value{raw}); else g_raw_buffers.erase(k.as_str());
+                }
                 recorded += "[";
                 for (std::size_t i = 0; i < deltas.size(); ++i) { if (i) recorded += ','; if (deltas[i]) json_of(recorded, deltas[i]->view()); else recorded += "null"; }
                 recorded += "]";
@@ -321,6 +333,7 @@ std::string handle_run(const JV &req) {
 // "rr": record in prog1, seed prog2's replay buffers with the recorded Values (no JSON round trip), run prog2.
 std::string handle_rr(const JV &req) {
     std::string out = "{\"ok\":true,\"runs\":[";
+    g_raw_buffers.clear();
     SeedMap captured;
     for (int i = 0; i < 2; ++i) {
         Prepared p;
@@ -486,6 +499,24 @@ std::string handle_batch(const JV &req) {
                 emit_trace(so, c);
                 so += ",\"error\":" + (err.empty() ? std::string{"null"} : err) + ",\"build_error\":" + (berr.empty() ? std::string{"null"} : berr);
                 if (!rec.empty()) so += ",\"recorded\":" + rec;
+                // what eval_node hands back: the buffer as it reads from the CONTEXT's state after the copy-back
+                if (auto *keys = pj.get("record_keys")) {
+                    so += ",\"recorded_ctx\":{";
+                    bool f2 = true;
+                    for (auto &k : keys->a) {
+                        if (!f2) so += ',';
+                        f2 = false;
+                        jstr(so, k.as_str());
+                        so += ':';
+                        try {
+                            auto deltas = testing::get_recorded_deltas(GlobalContext::active_state()->view(), k.as_str());
+                            so += '[';
+                            for (std::size_t i = 0; i < deltas.size(); ++i) { if (i) so += ','; if (deltas[i]) json_of(so, deltas[i]->view()); else so += "null"; }
+                            so += ']';
+                        } catch (const std::exception &ex) { so += "{\"exc\":" + jq(ex.what()) + "}"; }
+                    }
+                    so += '}';
+                }
                 so += "}";
             }
         }
